@@ -287,6 +287,10 @@ def random_blueprint(rng, meta):
     def bonuses():
         n = rng.choice([0, 1, 2, 3, 4, 4])
         kinds = rng.sample(list(BonusType), n)
+        if n >= 2 and rng.random() < .3:
+            # a blueprint is a LIST of bonus specs: nothing forbids the same kind twice (with different grades); "blueprints add up"
+            # then means the sum over the listed entries
+            kinds[rng.randrange(1, n)] = kinds[0]
         lo = 3 if meta.boss_reward and rng.random() < .9 else 1
         out = []
         for k in kinds:
